@@ -66,20 +66,21 @@ func init() {
 	I["(time.Duration).Seconds"] = func(t *Thread, fn *ssa.Function, a []Value) Value {
 		return RBin(OpRDiv, BV2Real(a[0].(*Term), true), MkReal(big.NewRat(1000000000, 1)))
 	}
-	newTimer := func(t *Thread, et types.Type) *ChanObj {
+	newTimer := func(t *Thread, et types.Type, dur Value) *ChanObj {
 		noteStub("timers (time.After/NewTimer/Sleep) fire only when every goroutine is blocked, oldest first, or on verifapi.AdvanceTime")
 		ch := t.ex.newChan(et, 1)
 		ch.timer = true
+		ch.timerDur, _ = dur.(*Term)
 		t.ex.timers = append(t.ex.timers, ch)
 		return ch
 	}
 	I["time.After"] = func(t *Thread, fn *ssa.Function, a []Value) Value {
 		et := fn.Signature.Results().At(0).Type().Underlying().(*types.Chan).Elem()
-		return newTimer(t, et)
+		return newTimer(t, et, a[0])
 	}
 	I["time.Sleep"] = func(t *Thread, fn *ssa.Function, a []Value) Value {
 		tp := t.ex.prog.SSA.ImportedPackage("time")
-		ch := newTimer(t, tp.Type("Time").Type())
+		ch := newTimer(t, tp.Type("Time").Type(), a[0])
 		t.selectOp([]selCase{{ch: ch}}, false)
 		return nil
 	}
@@ -89,12 +90,28 @@ func init() {
 		st := tt.Underlying().(*types.Struct)
 		for i := 0; i < st.NumFields(); i++ {
 			if st.Field(i).Name() == "C" {
-				ch := newTimer(t, st.Field(i).Type().Underlying().(*types.Chan).Elem())
+				ch := newTimer(t, st.Field(i).Type().Underlying().(*types.Chan).Elem(), a[0])
 				c.Sub[i].V = ch
 				c.Tag = ch
 			}
 		}
 		return c
+	}
+	// verifapi.PendingTimer: duration (ns) of the oldest timer that has not fired yet; -1 if none (engine only)
+	I[apiP+"PendingTimer"] = func(t *Thread, fn *ssa.Function, a []Value) Value {
+		if tm := t.ex.nextTimer(); tm != nil && tm.timerDur != nil {
+			return tm.timerDur
+		}
+		return MkBV(^uint64(0), 64)
+	}
+	I[apiP+"PendingTimers"] = func(t *Thread, fn *ssa.Function, a []Value) Value {
+		n := 0
+		for _, tm := range t.ex.timers {
+			if !tm.timerFired && !tm.timerStopped && liveWaiter(&tm.recvq) != nil {
+				n++
+			}
+		}
+		return MkBV(uint64(n), 64)
 	}
 	I["(*time.Timer).Stop"] = func(t *Thread, fn *ssa.Function, a []Value) Value {
 		ch, _ := a[0].(*Cell).Tag.(*ChanObj)
